@@ -400,3 +400,151 @@ package http2
 //@ # above that only the shape (cont, declen, short) is proved
 //@ ensures decval: d < 2097152 ==> spec.intVal(r0[last:], bits) == index
 //@ ensures short: len(r0) - last <= 11
+
+
+//@ macro hpackOK(hp) = hp != nil && forall(i, 0, len(hp.dynamic), hp.dynamic[i] != nil)
+
+//@ func (*HPACK).peek
+//@ props C03 C16
+//@ opt wrapsigned=true
+//@ requires recv: hp != nil
+//@ pure
+//@ ensures static: 1 <= n && n <= 61 ==> r0 == staticTable[n - 1]
+//@ ensures dynamic: 62 <= n && n < 62 + len(hp.dynamic) ==> r0 == hp.dynamic[len(hp.dynamic) - 1 - (n - 62)]
+//@ ensures none: n == 0 || n >= 62 + len(hp.dynamic) ==> r0 == nil
+
+// ---- Huffman (see the C15 section for the functions' own proofs) ----
+
+//@ func HuffmanDecode
+//@ props C15 C16
+//@ modifies capacity(dst)
+//@ opt body=skip
+//@ ensures keep: r1 == nil ==> len(r0) >= len(dst) && r0[:len(dst)] == old(dst)
+//@ ensures err: r1 != nil ==> r0 == nil
+
+//@ func HuffmanEncode
+//@ props C15
+//@ modifies capacity(dst)
+//@ opt body=skip
+//@ ensures keep: len(r0) >= len(dst) && r0[:len(dst)] == old(dst)
+
+//@ func errors.New
+//@ trusted
+//@ pure
+//@ ensures nonnil: r0 != nil
+
+//@ func readString
+//@ props C03 C16
+//@ modifies capacity(dst)
+//@ let b0 = old(b)
+//@ let n = spec.intVal(b0, 7)
+//@ let il = spec.intLen(b0, 7)
+//@ let huff = b0[0] >= 128
+//@ let fits = len(b0) > 0 && spec.intFits(b0, 7) && n <= len(b0) - il
+//@ ensures okraw: fits && !huff ==> r2 == nil && concat(r1, old(dst), b0[il : il + n])
+//@ ensures rest: r2 == nil ==> fits && samearray(r0, b) && offset(r0) == offset(b) + il + n && len(r0) == len(b) - il - n
+//@ ensures okhuff: r2 == nil && huff ==> len(r1) >= len(dst) && r1[:len(dst)] == old(dst)
+//@ ensures short: len(b0) > 0 && spec.intFits(b0, 7) && n > len(b0) - il ==> r2 == ErrUnexpectedSize
+//@ ensures trunc: len(b0) > 0 && spec.intTrunc(b0, 7) ==> r2 == ErrUnexpectedSize
+//@ ensures empty: len(b0) == 0 ==> r2 != nil
+//@ ensures bad: len(b0) > 0 && spec.intComplete(b0, 7) && !spec.intFits(b0, 7) ==> r2 != nil && r2 != ErrUnexpectedSize
+
+// ---------------------------------------------------------------------------
+// headerField.go and the dynamic table
+// ---------------------------------------------------------------------------
+
+//@ func (*HeaderField).Size
+//@ props C03 C04
+//@ requires recv: hf != nil
+//@ pure
+//@ ensures size: r0 == (len(hf.key) + len(hf.value) + 32) % 4294967296
+
+//@ # two header fields own separate buffers (a buffer with no capacity cannot be written in place)
+//@ macro bufsep(a, b) = !samearray(a, b) || cap(a) == 0
+//@ macro hfsep(dst, src) = bufsep(dst.key, src.key) && bufsep(dst.key, src.value) && bufsep(dst.value, src.key) && bufsep(dst.value, src.value) &&
+//@ |   bufsep(dst.key, dst.value) && bufsep(dst.value, dst.key)
+
+//@ func (*HeaderField).CopyTo
+//@ props C03 C04
+//@ requires recv: hf != nil && other != nil
+//@ requires sep: hfsep(other, hf)
+//@ modifies other.key, capacity(other.key), other.value, capacity(other.value), other.sensible
+//@ ensures copy: other.key == old(hf.key) && other.value == old(hf.value) && other.sensible == old(hf.sensible)
+
+//@ func (*HeaderField).SetKeyBytes
+//@ props C03
+//@ requires recv: hf != nil
+//@ modifies hf.key, capacity(hf.key)
+//@ ensures copy: hf.key == old(key)
+
+//@ func (*HeaderField).SetValueBytes
+//@ props C03
+//@ requires recv: hf != nil
+//@ modifies hf.value, capacity(hf.value)
+//@ ensures copy: hf.value == old(value)
+
+//@ func (*HeaderField).Reset
+//@ props C03
+//@ requires recv: hf != nil
+//@ modifies hf.key, hf.value, hf.sensible
+//@ ensures empty: len(hf.key) == 0 && len(hf.value) == 0 && !hf.sensible
+
+//@ func AcquireHeaderField
+//@ props C03 C16
+//@ ensures fresh: r0 != nil && fresh(r0)
+
+//@ func ReleaseHeaderField
+//@ props C03 C16
+//@ requires nonnil: hf != nil
+//@ modifies hf.key, hf.value, hf.sensible
+
+//@ macro tsize(hp, i) = spec.ssum(lenmap(HeaderField.key), lenmap(HeaderField.value), hp.dynamic, i)
+
+//@ func (*HPACK).DynamicSize
+//@ props C03 C04
+//@ requires tbl: hpackOK(hp)
+//@ # entries are bounded by the frame size, so the 32-bit sum cannot wrap
+//@ requires small: tsize(hp, 0) < 4294967296
+//@ pure
+//@ loop 0: invariant acc: n + tsize(hp, rangeindex + 1) == tsize(hp, 0) && n >= 0
+//@ ensures sum: n == tsize(hp, 0)
+
+//@ func (*HPACK).shrink
+//@ props C03 C04
+//@ requires tbl: hpackOK(hp)
+//@ requires small: tsize(hp, 0) < 4294967296
+//@ # evicted entries go back to the pool: their fields are reset, nothing else about other fields is promised
+//@ modifies hp.dynamic, contents(hp.dynamic), family(HeaderField)
+//@ loop 0: invariant scan: 0 <= n && n <= len(hp.dynamic) && tableSize == tsize(hp, n) &&
+//@ |   forall(m, 0, n, tsize(hp, m) > hp.maxTableSize)
+//@ loop 1: invariant rel: 0 <= i && i <= n && n <= len(hp.dynamic) && hp.dynamic == old(hp.dynamic) && sameslice(hp.dynamic, old(hp.dynamic)) &&
+//@ |   forall(k, 0, len(hp.dynamic), hp.dynamic[k] != nil)
+//@ let ev = len(old(hp.dynamic)) - len(hp.dynamic)
+//@ # RFC 7541 section 4.3/4.4: entries are evicted from the oldest end until the size fits; no more than needed
+//@ ensures suffix: ev >= 0 && forall(k, 0, len(hp.dynamic), hp.dynamic[k] == old(hp.dynamic)[ev + k])
+//@ ensures fits: ev == len(old(hp.dynamic)) || old(tsize(hp, ev)) <= hp.maxTableSize
+//@ ensures minimal: forall(m, 0, ev, old(tsize(hp, m)) > hp.maxTableSize)
+//@ ensures nonnil: forall(k, 0, len(hp.dynamic), hp.dynamic[k] != nil)
+
+//@ func (*HPACK).addDynamic
+//@ props C03 C04
+//@ requires tbl: hpackOK(hp) && hf != nil
+//@ requires small: tsize(hp, 0) + len(hf.key) + len(hf.value) + 32 < 4294967296
+//@ modifies hp.dynamic, capacity(hp.dynamic), family(HeaderField), anybytes()
+//@ opt noframe=elem
+//@ let ev = len(old(hp.dynamic)) + 1 - len(hp.dynamic)
+//@ # the table afterwards is a suffix of (old table ++ copy of hf); the copy is the newest entry unless it was evicted too
+//@ ensures suffix: ev >= 0 && ev <= len(old(hp.dynamic)) + 1 && forall(k, 0, len(hp.dynamic) - 1, hp.dynamic[k] == old(hp.dynamic)[ev + k])
+//@ ensures newest: len(hp.dynamic) > 0 ==> fresh(hp.dynamic[len(hp.dynamic) - 1])
+//@ ensures nonnil: forall(k, 0, len(hp.dynamic), hp.dynamic[k] != nil)
+
+//@ func (*HPACK).SetMaxTableSize
+//@ props C04 C18
+//@ requires tbl: hpackOK(hp)
+//@ requires small: tsize(hp, 0) < 4294967296
+//@ modifies hp.maxTableSizeSettings, hp.maxTableSize, hp.pendingSizeUpdate, hp.dynamic, contents(hp.dynamic), family(HeaderField)
+//@ ensures limit: hp.maxTableSize == size && hp.maxTableSizeSettings == size
+//@ # a change of the limit has to be announced at the start of the next header block (RFC 7541 section 4.2)
+//@ ensures announce: (old(hp.maxTableSize) != size || old(hp.maxTableSizeSettings) != size) ==> hp.pendingSizeUpdate
+//@ ensures keepflag: old(hp.pendingSizeUpdate) ==> hp.pendingSizeUpdate
+//@ ensures nonnil: forall(k, 0, len(hp.dynamic), hp.dynamic[k] != nil)
